@@ -200,6 +200,15 @@ class Protocol(Flow):
             self.conn_path[unparse(st.targets[0])] = self.paths.classify(st.value.args[0])
         return self.transfer_expr(st, state)
 
+    def with_enter(self, node, state):
+        # `with sqlite3.connect(path) as conn:` binds the connection like the assignment does (sqlite3's context manager
+        # commits or rolls back on exit; it does not close)
+        for it in node.items:
+            e = it.context_expr
+            if isinstance(e, ast.Call) and unparse(e.func) == "sqlite3.connect" and e.args and it.optional_vars is not None:
+                self.conn_path[unparse(it.optional_vars)] = self.paths.classify(e.args[0])
+        return super().with_enter(node, state)
+
     def branch(self, test, state):
         s = list(self.transfer_expr(test, state))[0]
         t = f = s
